@@ -18,7 +18,7 @@ RULE = (
     "one case per (expression token sequence, spacing); systematic: all ordered pairs and triples of the 7 binary operators over "
     "3 operand tuples with every single-level parenthesisation, all unary/binary adjacencies, literal bases/cases at boundary "
     "magnitudes; random trees; each run through eval_expression_str, the operand context (lda.w #E, lda.w E) and, when all its "
-    "operators are lexable there, the directive contexts (.dl, :=, =, macro argument, .if); distinct by hash of the rendered text; "
+    "operators are lexable there, the directive contexts (.dl, :=, =, macro argument, .if, .for bound when the value is small); distinct by hash of the rendered text; "
     "non-trivial = the reference defines a value and at least one operator is present"
 )
 ASSUMPTIONS = [
@@ -202,12 +202,14 @@ def wholly_parenthesised(tokens) -> bool:
     return False
 
 
-def contexts_for(tokens) -> list[str]:
+def contexts_for(tokens, value: int | None = None) -> list[str]:
     ctx = ["api", "imm"]
     if not wholly_parenthesised(tokens):
         ctx.append("direct")
     if lexable_in_directive(tokens):
         ctx += ["dl", "assign", "symbol", "macro", "if"]
+        if value is not None and -2 <= value <= 6:
+            ctx.append("for")       # loop bound: the body is assembled max(0, value) times
     return ctx
 
 
@@ -227,6 +229,8 @@ def program_for(ctx: str, text: str) -> str:
         return head + ".macro mm(pp) {\n.dl pp\n}\n" + f"mm({text})\n"
     if ctx == "if":
         return head + f".if {text} {{\n.db 1\n}} else {{\n.db 0\n}}\n"
+    if ctx == "for":
+        return head + f".for zi := 0, {text} {{\n.db zi + 0x40\n}}\n.db 0xEE\n"
     raise ValueError(ctx)
 
 
@@ -237,6 +241,8 @@ def expected_bytes(ctx: str, v: int) -> bytes:
         return b"\xad" + le(v, 2)
     if ctx == "if":
         return b"\x01" if v != 0 else b"\x00"
+    if ctx == "for":
+        return bytes(0x40 + i for i in range(max(0, v))) + b"\xee"
     return le(v, 3)
 
 
@@ -253,7 +259,7 @@ def check_expr(res: Res, tokens, style: str, rng: random.Random) -> None:
     res.case(text, nontrivial=has_op)
     want_texts = tuple(rx.texts(tokens))
     tp = tap()
-    for ctx in contexts_for(tokens):
+    for ctx in contexts_for(tokens, exp):
         res.count(f"ctx_{ctx}")
         tp.start()
         if ctx == "api":
